@@ -181,3 +181,65 @@ def _domain_excluded_remap(n):
 
 
 DOMAIN[F + 'NodeExistence.get_effective_settings@excluded-remap'] = _domain_excluded_remap
+
+
+# ---- MatrixGenSettings.get_max_conn_parallel: the parallel-connection limit that bounds every matrix entry (C09, C11) ---
+CLASSES['NodeM'] = {'conns': 'Optional[List[Int]]', 'max_inf': ('expr', 'self.conns is None')}
+CLASSES['MatrixGenSettingsP'] = {'src': 'List[Ref[NodeM]]', 'tgt': 'List[Ref[NodeM]]', 'max_conn_parallel': 'Optional[Int]'}
+FIN_LE = 'forall(i, 0, len({L}), implies({L}[i].conns is not None, forall(c, 0, len({L}[i].conns), {L}[i].conns[c] <= {R})))'
+FIN_HIT = 'exists(i, 0, len({L}), {L}[i].conns is not None and exists(c, 0, len({L}[i].conns), {L}[i].conns[c] == {R}))'
+CONTRACTS[F + 'MatrixGenSettings.get_max_conn_parallel'] = dict(
+    properties=['C09', 'C11'],
+    types={'self': 'Ref[MatrixGenSettingsP]'},
+    returns='Int',
+    locals={'max_non_inf': 'Int', 'max_conn': 'Int'},
+    requires={
+        # Node.__init__ stores a sorted list; a node with an explicit empty list admits no degree at all
+        'finite-degree-lists-nonempty': 'forall(i, 0, len(self.src), implies(self.src[i].conns is not None, len(self.src[i].conns) >= 1)) and '
+                                        'forall(i, 0, len(self.tgt), implies(self.tgt[i].conns is not None, len(self.tgt[i].conns) >= 1))',
+    },
+    loops={
+        'for nodes in [self.src, self.tgt]': dict(index='k', invariant={
+            'at-least-two': 'max_non_inf >= 2',
+            'src-covered': 'implies(k >= 1, ' + FIN_LE.format(L='self.src', R='max_non_inf') + ')',
+            'tgt-covered': 'implies(k >= 2, ' + FIN_LE.format(L='self.tgt', R='max_non_inf') + ')',
+            'attained': 'max_non_inf == 2 or (k >= 1 and ' + FIN_HIT.format(L='self.src', R='max_non_inf') + ') or (k >= 2 and ' + FIN_HIT.format(L='self.tgt', R='max_non_inf') + ')',
+        }),
+        'for node in nodes': dict(index='q', invariant={
+            'at-least-two': 'max_non_inf >= 2',
+            'src-covered': 'implies(k >= 1, ' + FIN_LE.format(L='self.src', R='max_non_inf') + ')',
+            'this-list-covered-so-far': 'forall(i, 0, q, implies(nodes[i].conns is not None, forall(c, 0, len(nodes[i].conns), nodes[i].conns[c] <= max_non_inf)))',
+            'attained': 'max_non_inf == 2 or (k >= 1 and ' + FIN_HIT.format(L='self.src', R='max_non_inf') + ') or exists(i, 0, q, nodes[i].conns is not None and exists(c, 0, len(nodes[i].conns), nodes[i].conns[c] == max_non_inf))',
+        }),
+    },
+    ensures={
+        'explicit-limit-at-least-one': ('property', 'implies(self.max_conn_parallel is not None, result == ite(self.max_conn_parallel > 1, self.max_conn_parallel, 1))'),
+        'default-at-least-two': ('property', 'implies(self.max_conn_parallel is None, result >= 2)'),
+        'default-admits-every-finite-source-degree': ('property', 'implies(self.max_conn_parallel is None, ' + FIN_LE.format(L='self.src', R='result') + ')'),
+        'default-admits-every-finite-target-degree': ('property', 'implies(self.max_conn_parallel is None, ' + FIN_LE.format(L='self.tgt', R='result') + ')'),
+        'default-is-tight': ('property', 'implies(self.max_conn_parallel is None, result == 2 or ' + FIN_HIT.format(L='self.src', R='result') + ' or ' + FIN_HIT.format(L='self.tgt', R='result') + ')'),
+    },
+    modifies=[],
+)
+
+
+def _domain_max_conn_parallel(n):
+    from adsg_core.optimization.assign_enc.matrix import MatrixGenSettings, Node
+    rng = _rng()
+
+    def node():
+        r = rng.random()
+        if r < 0.3:
+            return Node(min_conn=rng.randint(0, 3))
+        if r < 0.6:
+            lo = rng.randint(0, 3)
+            return Node(min_conn=lo, max_conn=lo + rng.randint(0, 3))
+        return Node(sorted(rng.sample(range(0, 7), rng.randint(1, 3))))
+    for _ in range(n):
+        s = MatrixGenSettings(src=[node() for _ in range(rng.randint(0, 3))], tgt=[node() for _ in range(rng.randint(0, 3))],
+                              max_conn_parallel=rng.choice([None, None, None, -1, 0, 1, 2, 5]))
+        yield ({'self': s}, (lambda s=s: s.get_max_conn_parallel()), {},
+               f'MatrixGenSettings(src={s.src!r}, tgt={s.tgt!r}, max_conn_parallel={s.max_conn_parallel}).get_max_conn_parallel()')
+
+
+DOMAIN[F + 'MatrixGenSettings.get_max_conn_parallel'] = _domain_max_conn_parallel
